@@ -193,10 +193,8 @@ macro_rules! define_all {
             pub fn elem(self) -> Elem { match self { $( TyId::$T => <$E as Scalar>::KIND ),* } }
             /// Build from raw element bit patterns through the plain public constructor.
             pub fn from_bits(self, bits: &[u64]) -> Val {
-                match self { $( TyId::$T => {
-                    let e: Vec<$E> = bits.iter().map(|b| <$E as Scalar>::from_bits64(*b)).collect();
-                    Val::$T(<$T as GlamTy>::from_elems(&e))
-                } ),* }
+                // arms are bare calls: the interpreter-friendly shape (Miri pays per local of the frame)
+                match self { $( TyId::$T => from_bits_of::<$T>(bits) ),* }
             }
         }
 
@@ -235,12 +233,23 @@ macro_rules! define_all {
             /// (type id, visible element bits) for glam values.
             pub fn glam_bits(&self) -> Option<(TyId, Vec<u64>)> {
                 match self {
-                    $( Val::$T(x) => Some((TyId::$T, x.to_elems().into_iter().map(|e| e.to_bits64()).collect())), )*
+                    $( Val::$T(x) => Some(bits_of::<$T>(x)), )*
                     _ => None,
                 }
             }
         }
     };
+}
+
+#[inline(never)]
+fn from_bits_of<T: GlamTy + V>(bits: &[u64]) -> Val {
+    let e: Vec<T::E> = bits.iter().map(|b| <T::E as Scalar>::from_bits64(*b)).collect();
+    T::from_elems(&e).into_val()
+}
+
+#[inline(never)]
+fn bits_of<T: GlamTy>(x: &T) -> (TyId, Vec<u64>) {
+    (T::ID, x.to_elems().into_iter().map(|e| e.to_bits64()).collect())
 }
 
 /// Conversion between Rust values of the vocabulary and `Val`.
